@@ -298,6 +298,7 @@ func init() {
 	registerHashCborModels()
 	registerOSModels()
 	registerAtomicModels()
+	registerEventAPI()
 }
 
 func validUTF8(s string) bool {
